@@ -3,7 +3,7 @@ CONSTANTS EmitOn = FALSE
           Thorough = FALSE
           NPerm = 6
           NCombo = 3
-          CutBound = 700
+          CutBound = 200
           ModelMut = "nosort"
 INVARIANT PropRoundTrip
 INVARIANT PropCanonical
